@@ -3,8 +3,10 @@ package main
 import (
 	"fmt"
 	"go/ast"
+	"go/constant"
 	"go/token"
 	"go/types"
+	"regexp"
 	"strings"
 
 	"golang.org/x/tools/go/ssa"
@@ -909,6 +911,11 @@ func ruleContextThreaded(c *Ctx, rule string) {
 			if cal := cs.common.StaticCallee(); cal != nil && cal.Name() == "buildWaitStatement" {
 				n++
 				ok, why := existsLoopFlag(cs.arg(1))
+				if ok {
+					// and nothing but the injector's arguments decides it (the statement's own arguments, the channels, ... do not
+					// switch the escape off again)
+					ok, why = flagDecidedByInjectorOnly(L, fn, cs.arg(1))
+				}
 				// and the loop's predicate is isContextType over injector.Args
 				pred := false
 				for _, cs2 := range callsIn(fn) {
@@ -1218,4 +1225,115 @@ func listOrigin(fam []*ssa.Function, v ssa.Value, d int) ssa.Value {
 		}
 	}
 	return v
+}
+
+// flagDecidedByInjectorOnly: the boolean v of fn is a web of phis over constants, both values occur, and every branch that
+// selects between different values of the web tests something computed from the injector alone (a parameter of type
+// *Injector or its argument list) - not the statement being emitted, its arguments or the channels.
+func flagDecidedByInjectorOnly(L *Loaded, fn *ssa.Function, v ssa.Value) (bool, string) {
+	var phis []*ssa.Phi
+	hasT, hasF := false, false
+	seen := map[ssa.Value]bool{}
+	var walk func(x ssa.Value) bool
+	walk = func(x ssa.Value) bool {
+		if seen[x] {
+			return true
+		}
+		seen[x] = true
+		switch y := x.(type) {
+		case *ssa.Const:
+			if y.Value == nil || y.Value.Kind() != constant.Bool {
+				return false
+			}
+			if constant.BoolVal(y.Value) {
+				hasT = true
+			} else {
+				hasF = true
+			}
+			return true
+		case *ssa.Phi:
+			phis = append(phis, y)
+			for _, e := range y.Edges {
+				if !walk(e) {
+					return false
+				}
+			}
+			return true
+		}
+		return false
+	}
+	if !walk(v) {
+		return false, "the flag is not a web of constants"
+	}
+	if !hasT || !hasF {
+		return false, "the flag is a constant"
+	}
+	key := func(x ssa.Value) string {
+		if c, ok := x.(*ssa.Const); ok {
+			return c.String()
+		}
+		return x.Name()
+	}
+	for _, p := range phis {
+		B := p.Block()
+		for _, X := range fn.Blocks {
+			if len(X.Instrs) == 0 {
+				continue
+			}
+			iff, ok := X.Instrs[len(X.Instrs)-1].(*ssa.If)
+			if !ok {
+				continue
+			}
+			var sets [2]map[string]bool
+			for i, S := range X.Succs {
+				sets[i] = map[string]bool{}
+				vis := map[*ssa.BasicBlock]bool{}
+				type edge struct{ u, w *ssa.BasicBlock }
+				work := []edge{{X, S}}
+				for len(work) > 0 {
+					e := work[len(work)-1]
+					work = work[:len(work)-1]
+					if e.w == B {
+						for k, pr := range B.Preds {
+							if pr == e.u {
+								sets[i][key(p.Edges[k])] = true
+							}
+						}
+						continue
+					}
+					if vis[e.w] {
+						continue
+					}
+					vis[e.w] = true
+					for _, n := range e.w.Succs {
+						work = append(work, edge{e.w, n})
+					}
+				}
+			}
+			same := len(sets[0]) == len(sets[1])
+			for k := range sets[0] {
+				if !sets[1][k] {
+					same = false
+				}
+			}
+			if same {
+				continue
+			}
+			s := newSym(L, map[string]bool{})
+			s.maxD = 0
+			term := strings.Join(s.eval(iff.Cond), "|")
+			for _, m := range regexp.MustCompile(`param:([A-Za-z_0-9]+)`).FindAllStringSubmatch(term, -1) {
+				okP := false
+				for _, q := range fn.Params {
+					if q.Name() == m[1] && (strings.HasSuffix(q.Type().String(), genPkg+".Injector") || strings.HasSuffix(q.Type().String(), genPkg+".InjectorArgument")) {
+						okP = true
+					}
+				}
+				if !okP {
+					return false, "whether the wait can be cancelled also depends on " + m[1] + ": " + term
+				}
+			}
+		}
+	}
+	return true, "a web of constants selected by tests over the injector's arguments only"
 }
